@@ -36,7 +36,10 @@ META = {
         "for constant_*/constant_set/invariant/..., unknown keywords; token level: "
         "truncate at / drop every token, insert 8 characters at every line; plus every "
         "raw regex string of length <= L (C16 alphabet) as the pattern of a "
-        "verification function; de-duplicated by text; non-trivial = syntactically "
+        "verification function; every combination of three constants (sets of str / int / "
+        "enumeration literals, plain int / str constants) x every DAG of superset_of "
+        "references, and references to a class / enumeration / unknown name / itself; "
+        "de-duplicated by text; non-trivial = syntactically "
         "valid Python (reaches the translator)"
     ),
     "bounds": {
@@ -55,6 +58,8 @@ def shards(tier: str) -> List[Any]:
     result = [("dev",) + shard for shard in stream.shards(tier)]
     for index in range(8):
         result.append(("regex", tier, index, 8))
+    for index in range(4):
+        result.append(("constants", tier, index, 4))
     if tier == "thorough":
         for seed in ("enum", "list_of_enums", "list_of_constrained_primitives"):
             for index in range(48):
@@ -86,8 +91,72 @@ REGEX_MENU = [
 ]
 
 
+CONSTANT_KINDS = {
+    "str": ('Set[str]', 'constant_set(values=["a", "b"]{extra})'),
+    "int": ('Set[int]', "constant_set(values=[1, 2]{extra})"),
+    "enum": ('Set[Color]', "constant_set(values=[Color.Red, Color.Green]{extra})"),
+    "int-constant": ("int", "constant_int(value=1)"),
+    "str-constant": ("str", 'constant_str(value="a")'),
+}
+CONSTANTS_TAIL = """
+
+class Color(Enum):
+    \"\"\"Represent a color.\"\"\"
+
+    Red = "a"
+    Green = "b"
+
+
+class Something(DBC):
+    \"\"\"Represent something.\"\"\"
+
+    text: str
+
+    def __init__(self, text: str) -> None:
+        self.text = text
+
+
+__version__ = "dummy"
+__xml_namespace__ = "https://dummy.com"
+"""
+
+
+def constant_family_models() -> Iterator[Tuple[Any, str]]:
+    """
+    Three constants of every combination of kinds (sets of str / int / enumeration
+    literals, plain constants) with every DAG of `superset_of` references between them,
+    plus references to a class, an enumeration, an unknown name and itself.
+    """
+    kinds = list(CONSTANT_KINDS)
+    edges_all = [(0, 1), (0, 2), (1, 2)]
+    for combo in itertools.product(kinds, repeat=3):
+        for mask in range(1, 8):
+            edges = [e for bit, e in enumerate(edges_all) if mask & (1 << bit)]
+            if any(combo[j].endswith("constant") for _, j in edges):
+                continue  # only sets can declare supersets
+            lines = []
+            for index, kind in enumerate(combo):
+                annotation, template = CONSTANT_KINDS[kind]
+                subsets = [f"Cst_{i}" for i, j in edges if j == index]
+                extra = f", superset_of=[{', '.join(subsets)}]" if subsets else ""
+                lines.append(f"Cst_{index}: {annotation} = " + template.format(extra=extra))
+                lines.append("")
+            yield {"constants": list(combo), "edges": edges}, "\n".join(lines) + CONSTANTS_TAIL
+    for kind in ("str", "int", "enum"):
+        annotation, template = CONSTANT_KINDS[kind]
+        for reference in ("Something", "Color", "Unknown_name", "Cst_0", "Color.Red", '"Cst_0"', "1"):
+            text = f"Cst_0: {annotation} = " + template.format(extra=f", superset_of=[{reference}]") + "\n"
+            yield {"constants": [kind], "superset_of": reference}, text + CONSTANTS_TAIL
+
+
 def cases_of_shard(shard: Any) -> Iterator[Tuple[Any, str]]:
     kind = shard[0]
+    if kind == "constants":
+        _, tier, index, slices = shard
+        for number, (info, text) in enumerate(constant_family_models()):
+            if number % slices == index:
+                yield info, text
+        return
     if kind == "dev":
         _, seed, menu, index, slices = shard
         for descriptor, text in gen_dev.mutants_of_shard(seed, menu, index, slices):
